@@ -17,8 +17,9 @@ CONSTANTS Mode,      \* "bfs": all histories over the fixed alphabet | "sim": ra
           MaxPages,  \* steps that would exceed this many pages are disabled
           Deep3,     \* bfs: shapes additionally explored to 3 steps over the small action alphabet
           Emit
-VARIABLES tree, shape, hist, len, prev, alpha
-vars == <<docvars, tree, shape, hist, len, prev, alpha>>
+(* conf: the configuration switches (Doc!Confs) every API call of the history runs with *)
+VARIABLES tree, shape, hist, len, prev, alpha, conf
+vars == <<docvars, tree, shape, hist, len, prev, alpha, conf>>
 
 ---------------------------------------------------------------------------
 (* argument alphabets and their API text *)
@@ -26,16 +27,27 @@ BoxText(b) == "[" \o ToString(b[1]) \o " " \o ToString(b[2]) \o " " \o ToString(
 RECURSIVE JoinStr(_, _)
 JoinStr(ss, sep) == IF ss = <<>> THEN "" ELSE IF Len(ss) = 1 THEN ss[1] ELSE ss[1] \o sep \o JoinStr(Tail(ss), sep)
 PB(media, crop, trim, bleed, art) == [media |-> media, crop |-> crop, trim |-> trim, bleed |-> bleed, art |-> art]
+R(b) == SpecRect(b)
+N0   == SpecNone
+SpecText(sp) == CASE sp.k = "rect" -> BoxText(sp.r)
+                  [] sp.k = "ref"  -> sp.ref
+                  [] sp.k = "marg" -> IF sp.m[1] = sp.m[2] /\ sp.m[2] = sp.m[3] /\ sp.m[3] = sp.m[4] THEN ToString(sp.m[1])
+                                      ELSE ToString(sp.m[1]) \o " " \o ToString(sp.m[2]) \o " " \o ToString(sp.m[3]) \o " " \o ToString(sp.m[4])
+                  [] OTHER -> ""
 PbText(pb) ==
-  JoinStr(SelectSeq(<<IF IsBox(pb.media) THEN "media:" \o BoxText(pb.media) ELSE "",
-                      IF IsBox(pb.crop)  THEN "crop:"  \o BoxText(pb.crop)  ELSE "",
-                      IF IsBox(pb.trim)  THEN "trim:"  \o BoxText(pb.trim)  ELSE "",
-                      IF IsBox(pb.bleed) THEN "bleed:" \o BoxText(pb.bleed) ELSE "",
-                      IF IsBox(pb.art)   THEN "art:"   \o BoxText(pb.art)   ELSE "">>, LAMBDA s : s # ""), ", ")
-PBs == <<PB(NoBox, <<10, 10, 150, 150>>, NoBox, NoBox, NoBox),
-         PB(<<0, 0, 300, 400>>, NoBox, NoBox, NoBox, NoBox),
-         PB(NoBox, NoBox, <<20, 20, 100, 100>>, NoBox, <<30, 30, 90, 90>>),
-         PB(<<0, 0, 250, 250>>, <<5, 5, 240, 240>>, NoBox, <<6, 6, 200, 200>>, NoBox)>>
+  JoinStr(SelectSeq(<<IF Given(pb.media) THEN "media:" \o SpecText(pb.media) ELSE "",
+                      IF Given(pb.crop)  THEN "crop:"  \o SpecText(pb.crop)  ELSE "",
+                      IF Given(pb.trim)  THEN "trim:"  \o SpecText(pb.trim)  ELSE "",
+                      IF Given(pb.bleed) THEN "bleed:" \o SpecText(pb.bleed) ELSE "",
+                      IF Given(pb.art)   THEN "art:"   \o SpecText(pb.art)   ELSE "">>, LAMBDA s : s # ""), ", ")
+(* absolute rectangles, margins relative to the parent box (all sides / top right bottom left) and box assignments *)
+PBs == <<PB(N0, R(<<10, 10, 150, 150>>), N0, N0, N0),
+         PB(R(<<0, 0, 300, 400>>), N0, N0, N0, N0),
+         PB(N0, N0, R(<<20, 20, 100, 100>>), N0, R(<<30, 30, 90, 90>>)),
+         PB(R(<<0, 0, 250, 250>>), R(<<5, 5, 240, 240>>), N0, R(<<6, 6, 200, 200>>), N0),
+         PB(N0, N0, SpecMarg(10, 10, 10, 10), SpecMarg(5, 10, 15, 20), N0),
+         PB(N0, N0, SpecRef("media"), N0, SpecRef("crop")),
+         PB(N0, SpecMarg(12, 12, 12, 12), SpecMarg(3, 3, 3, 3), SpecRef("trim"), N0)>>
 RBs == <<<<"crop">>, <<"trim">>, <<"bleed", "art">>, <<"crop", "trim", "bleed", "art">>>>
 CropRect(r)   == [kind |-> "rect", r |-> r, m |-> 0]
 CropMargin(m) == [kind |-> "margin", r |-> NoBox, m |-> m]
@@ -54,9 +66,18 @@ RandTerms(n) == SelTerms({1, 2, 3, Max2(1, n \div 2), Max2(1, n - 1), n, n + 1})
 RandSel(n)   == LET T == RandTerms(n) c == RandomElement(1..10)
                 IN IF c = 1 THEN <<>> ELSE IF c <= 7 THEN <<RandomElement(T)>> ELSE <<RandomElement(T), RandomElement(T)>>
 RandBoxes    == {<<10, 10, 150, 150>>, <<0, 0, 300, 400>>, <<20, 20, 100, 100>>, <<5, 5, 240, 240>>, <<30, 40, 330, 440>>}
-RandBoxOpt   == IF RandomElement(1..5) <= 2 THEN RandomElement(RandBoxes) ELSE NoBox
-RandPB       == LET pb == PB(RandBoxOpt, RandBoxOpt, RandBoxOpt, RandBoxOpt, RandBoxOpt)
-                IN IF pb = PB(NoBox, NoBox, NoBox, NoBox, NoBox) THEN PBs[1] ELSE pb
+RandBoxOpt   == IF RandomElement(1..5) <= 2 THEN R(RandomElement(RandBoxes)) ELSE N0
+RandMarg     == LET m == RandomElement({3, 10, 25}) IN
+                IF RandomElement(1..2) = 1 THEN SpecMarg(m, m, m, m) ELSE SpecMarg(m, m + 5, m + 10, 2 * m)
+(* a relative box: nothing, margins to the parent box, or the position of another box (never the box itself) *)
+RandRel(self) == LET c == RandomElement(1..6) IN
+                 IF c <= 2 THEN N0 ELSE IF c <= 4 THEN RandMarg
+                 ELSE SpecRef(RandomElement({"media", "crop", "trim", "bleed", "art"} \ {self}))
+(* either absolute rectangles for any box, or (media untouched) a crop box and relative / assigned trim, bleed, art boxes *)
+RandPB       == LET pb == IF RandomElement(1..2) = 1
+                            THEN PB(RandBoxOpt, RandBoxOpt, RandBoxOpt, RandBoxOpt, RandBoxOpt)
+                            ELSE PB(N0, IF RandomElement(1..3) = 1 THEN RandMarg ELSE RandBoxOpt, RandRel("trim"), RandRel("bleed"), RandRel("art"))
+                IN IF pb = PB(N0, N0, N0, N0, N0) THEN PBs[5] ELSE pb
 RandRB       == RandomElement({RBs[1], RBs[2], RBs[3], RBs[4], <<"crop", "trim">>, <<"art">>, <<"bleed">>})
 RandCrop     == IF RandomElement(1..2) = 1 THEN CropRect(RandomElement(RandBoxes)) ELSE CropMargin(RandomElement({5, 20, 33}))
 
@@ -70,7 +91,7 @@ StepRec(op, ts, n, txt) == [op |-> op, sel |-> SelRender(ts), n |-> n, txt |-> t
 Strip(h) == IF Mode = "sim" THEN h ELSE [i \in 1..Len(h) |-> [h[i] EXCEPT !.chk = FALSE, !.exp = <<>>]]
 Log(op, ts, n, txt) == /\ hist' = Append(Strip(hist), StepRec(op, ts, n, txt))
                        /\ prev' = [i \in 1..Len(pages) |-> <<pages[i].mark, pages[i].bid>>]
-                       /\ UNCHANGED <<tree, shape, len, alpha>>
+                       /\ UNCHANGED <<tree, shape, len, alpha, conf>>
 
 Fits == Len(pages') <= MaxPages
 (* stay inside the documents the model talks about (Doc!Ambig) *)
@@ -120,8 +141,10 @@ NextSim ==
 
 Init == /\ \E n \in Ns, k \in Shapes :
              /\ shape = <<n, k>> /\ tree = Shape(n, k, "p")
-             /\ \/ alpha = "full" /\ len \in (IF Mode = "sim" THEN 1..MaxLen ELSE IF k \in Deep THEN {MaxLen} ELSE {1})
-                \/ alpha = "small" /\ Mode = "bfs" /\ k \in Deep3 /\ len = 3
+             /\ \/ /\ alpha = "full" /\ len \in (IF Mode = "sim" THEN 1..MaxLen ELSE IF k \in Deep THEN {MaxLen} ELSE {1})
+                   /\ conf = (IF Mode = "sim" THEN Confs[RandomElement(1..Len(Confs))] ELSE Confs[1])
+                \/ alpha = "full1" /\ Mode = "bfs" /\ len = 1 /\ conf = Confs[2]
+                \/ alpha = "small" /\ Mode = "bfs" /\ k \in Deep3 /\ len = 3 /\ conf = Confs[3 + (k % 2)]
         /\ DocInit(TreePages(tree)) /\ hist = <<>> /\ prev = <<>>
 Next == /\ Len(hist) < len
         /\ IF Mode = "sim" THEN NextSim ELSE IF alpha = "small" THEN NextSmall ELSE NextFull
@@ -152,6 +175,6 @@ StepSane ==
        /\ s.op \in {"trim", "remove"} => IsSubSeq(now, prev)
        /\ s.op = "collect" => ToSet(now) \subseteq ToSet(prev)
 
-Case == [n |-> shape[1], k |-> shape[2], alpha |-> alpha, tree |-> tree, init |-> Out(TreePages(tree)), steps |-> hist]
+Case == [n |-> shape[1], k |-> shape[2], alpha |-> alpha, conf |-> conf, tree |-> tree, init |-> Out(TreePages(tree)), steps |-> hist]
 EmitCase == Emit /\ hist # <<>> /\ (Mode = "sim" => Len(hist) = len) => PrintT(<<"CASE", ToJson(Case)>>)
 =============================================================================
